@@ -78,7 +78,7 @@ def project(tr):
     out = []
     for r in tr:
         k = r['k']
-        if k in ('ev', 'wrf', 'call', 'stop', 'abandon', 'escape', 'hang'):
+        if k in ('ev', 'wrf', 'call', 'stop', 'abandon', 'escape', 'hang', 'cfg'):
             out.append(r)
         elif k == 'wr':
             out.append(r)
@@ -86,7 +86,7 @@ def project(tr):
             out.append(r)
         elif k == 'sel' and r['op'] == 'close':
             out.append(r)
-        elif k == 'rd':
+        elif k == 'rd' and r.get('what') != 'data':
             out.append(r)
     return out
 
@@ -117,6 +117,7 @@ def rec_match(m, r):
 def drift(pred, tr):
     """None if the recorded trace matches the model's predicted observations, else a short description."""
     real = project(tr)
+    pred = [p for p in pred if p['k'] not in ('srv', 'end') and not (p['k'] == 'rd' and p.get('what') == 'data')]
     n = min(len(pred), len(real))
     for i in range(n):
         if not rec_match(pred[i], real[i]):
